@@ -4,7 +4,7 @@ RULE = ("the real KerberosProxy.Handler (krb5.conf with generated KDC lists) aga
         "one replies) x Kerberos payloads of 0, 1, 5, 1 KiB, 60 000 and 128 KiB - 64 bytes, messages shorter than their length "
         "prefix, realms {default, configured, unknown, configured without KDC}; non-POST methods, chunked body without length, "
         "bodies over 128 KiB, every third truncation of a valid body, trailing byte, doubled body, flipped tag bits, non-minimal "
-        "length, random bytes; every response's status, decoded reply, latency bound, and what the KDCs received. distinct = "
+        "length, random bytes; every response's status, decoded reply, latency bound, and what the KDCs received; 16 concurrent clients x 12 (thorough 120) requests answered over UDP by a KDC whose reply echoes the request. distinct = "
         "distinct request; non-trivial = POST requests with a decodable body")
 MODELLED = ("KerberosProxy.Handler's validation, decode/encode for the gateway's own message shape, and forward's fan-out "
             "(Model/Kdc.v); gofork's asn1 in general, gokrb5's krb5.conf parser and KDC ordering, UDP/TCP sockets and timers are "
@@ -13,6 +13,8 @@ ASSUMPTIONS = ["partial: 'within a bounded time' is measured (11 s), each wait i
 
 
 def nontrivial(c):
+    if c.kind == "exact":
+        return True
     return c.kind == "kdc" and c.fields[0] == "POST" and "st=400" not in c.impl
 
 
